@@ -192,6 +192,26 @@ func TestOrder(t *testing.T) {
 			}
 			c.Callers = [][]wsim.Call{calls}
 			c.SettleMs = 500
+		case 4:
+			// the broker stops reading in the middle of a produce request for longer than WriteTimeout, then reads on: the
+			// attempt is abandoned and retried elsewhere, what was stuck in the pipe must not arrive later as a copy
+			c.WriteTimeoutMs = rapid.IntRange(60, 150).Draw(t, "stallWriteTimeoutMs")
+			if c.MaxAttempts < 3 {
+				c.MaxAttempts = 3
+			}
+			c.Balancer = "first"
+			nOK := rapid.IntRange(0, 3).Draw(t, "stallAfterOK")
+			c.Faults = nil
+			for i := 0; i < nOK; i++ {
+				c.Faults = append(c.Faults, wsim.Fault{Kind: "ok"})
+			}
+			stallMs := c.WriteTimeoutMs*2 + rapid.IntRange(50, 300).Draw(t, "stallExtraMs")
+			c.Faults = append(c.Faults, wsim.Fault{Kind: "write-stall", DelayMs: stallMs})
+			// the writer stays in use until well after the stall has ended: one more call of the first submitter after a pause
+			last := c.Callers[0][len(c.Callers[0])-1]
+			last.DelayUs = (stallMs + 250) * 1000
+			c.Callers[0] = append(c.Callers[0], last)
+			c.SettleMs = 500
 		case 3:
 			// stampede: several submitters make the first ever submission to one partition at the same moment; each then
 			// fills a batch at once, while its first message still sits in a partial batch waiting for BatchTimeout
